@@ -377,6 +377,41 @@ func c12(c *Ctx) {
 		}
 	}
 	c12QueryFailureAborts(c, "C12.4/failure-aborts")
+	// a DDL statement works on the catalog copy of its transaction; what it changes there reaches later transactions
+	// only through the persisted catalog entries (the cache is invalidated at commit and reloaded from them). A
+	// statement that changes a column in memory and persists nothing declares a constraint that nobody will enforce.
+	{
+		r := "C12.16/column-changes-are-persisted"
+		n := 0
+		for _, f := range c.allFns {
+			if !fnInPkgs(f, []string{"embedded/sql"}) || len(f.Blocks) == 0 || f.Signature.Recv() == nil || f.Name() != "execAt" {
+				continue
+			}
+			changed := map[string]string{}
+			allInstrs(f, true, func(in ssa.Instruction) {
+				st, ok := in.(*ssa.Store)
+				if !ok {
+					return
+				}
+				fl, base := fieldOf(st.Addr)
+				if !strings.HasPrefix(fl, "Column.") || isFreshAlloc(base) {
+					return
+				}
+				changed[fl] = c.pos(in.Pos())
+			})
+			if len(changed) == 0 {
+				continue
+			}
+			persists := len(sites(f, callTo("embedded/sql.persistColumn"))) > 0
+			for _, fl := range sortedKeys(changed) {
+				n++
+				c.check(persists, r, fnName(f)+":"+fl, changed[fl], "the column entry is persisted by the same statement", fl+" is changed in the transaction's catalog copy and nothing is persisted: the statement reports success, the change is gone with the next catalog reload (and was never checked against the existing rows)")
+			}
+		}
+		if n < 2 {
+			c.undecided(r, "floor", fmt.Sprintf("%d column changes by DDL statements found", n))
+		}
+	}
 	// constraints are kept in maps keyed by their name: inserting under a name that is already there drops a declared
 	// constraint without a word, so every insertion into such a map is preceded by a lookup of the same key
 	{
